@@ -8,6 +8,7 @@ import tempfile
 
 from lib import roundtrip as R
 
+EXTRA_PROPS = ("C06b",)          # DBC at the level of the whole file: corollaries of the file round trip (Props/C05o)
 PID = "C06"
 FEATURES_LEVEL = "layout"
 RULE = ("case 'sig' = (format out of dbc, dbf, sym, kcd, json, xls, arxml; for json/xls the Motorola notation option of writer and "
